@@ -211,6 +211,36 @@ where
     }
 }
 
+/// Public wrapper over the crate-private [`execute`], so that a simulation
+/// harness can drive the real select loop with synthetic executions.
+#[cfg(scylla_verif)]
+#[allow(unreachable_pub, missing_docs)]
+pub(crate) mod verif_api {
+    use super::{Context, SimpleSpeculativeExecutionPolicy, execute};
+    use crate::errors::RequestError;
+    use std::future::Future;
+    use std::time::Duration;
+
+    pub async fn speculative_execute<QueryFut, T>(
+        max_retry_count: usize,
+        retry_interval: Duration,
+        query_runner_generator: impl FnMut(bool) -> QueryFut,
+    ) -> Result<T, RequestError>
+    where
+        QueryFut: Future<Output = Option<Result<T, RequestError>>>,
+    {
+        let policy = SimpleSpeculativeExecutionPolicy {
+            max_retry_count,
+            retry_interval,
+        };
+        let context = Context {
+            #[cfg(feature = "metrics")]
+            metrics: std::sync::Arc::new(crate::observability::metrics::Metrics::new()),
+        };
+        execute(&policy, &context, query_runner_generator).await
+    }
+}
+
 #[cfg(test)]
 mod tests {
     // Important to start tests with paused clock. If starting unpaused, and calling `tokio::time::pause()`, then
